@@ -119,9 +119,15 @@ impl<L: Localize> OpeningHours<L> {
         (self.expr.rules)
             .iter()
             .map(|rule| {
-                if rule.time_selector.is_immutable_full_day()
-                    || !rule.day_selector.filter(date, &self.ctx)
-                {
+                // A rule which applies to the current day or spills on it from the previous
+                // day may result in a different schedule on the next day.
+                let applies_or_spills = || {
+                    rule.day_selector.filter(date, &self.ctx)
+                        || (date.pred_opt())
+                            .is_some_and(|prev| rule.day_selector.filter(prev, &self.ctx))
+                };
+
+                if rule.time_selector.is_immutable_full_day() || !applies_or_spills() {
                     rule.day_selector.next_change_hint(date, &self.ctx)
                 } else {
                     date.succ_opt()
